@@ -12,8 +12,9 @@ import (
 )
 
 type vC38Op struct {
-	kind string // append | replace | delete | create | swap
-	gap  int    // ms to wait before the operation
+	kind        string // append | replace | delete | create | swap
+	gap         int    // ms to wait before the operation
+	afterSignal bool   // first wait until one more signal has been received (then gap ms): a write right behind a reload
 }
 
 type vC38Result struct {
@@ -61,6 +62,19 @@ func vC38Run(dir string, symlink bool, ops []vC38Op) (res vC38Result, err error)
 	var evsD []any
 	lastChange := int64(0)
 	for _, op := range ops {
+		if op.afterSignal {
+			mu.Lock()
+			have := len(signals)
+			mu.Unlock()
+			for dl := time.Now().Add(3 * time.Second); time.Now().Before(dl); time.Sleep(200 * time.Microsecond) {
+				mu.Lock()
+				n := len(signals)
+				mu.Unlock()
+				if n > have {
+					break
+				}
+			}
+		}
 		time.Sleep(time.Duration(op.gap) * time.Millisecond)
 		t := time.Since(start).Milliseconds()
 		kind := op.kind
@@ -170,7 +184,13 @@ func TestVerifC38(t *testing.T) {
 			}
 		}
 		if i == 0 { // the witness of the original defect: two writes 400 ms apart
-			ops = []vC38Op{{"append", 100}, {"append", 400}}
+			ops = []vC38Op{{kind: "append", gap: 100}, {kind: "append", gap: 400}}
+		}
+		if i%4 == 1 { // a save, and another one a few milliseconds after the reload it triggered was signalled
+			ops = []vC38Op{{kind: "append", gap: 100}, {kind: "append", gap: 1 + r.Intn(4), afterSignal: true}}
+			if r.Bool() {
+				ops = append(ops, vC38Op{kind: "append", gap: 2600}, vC38Op{kind: "replace", gap: 1 + r.Intn(3), afterSignal: true})
+			}
 		}
 		d := filepath.Join(base, fmt.Sprintf("s%d", i))
 		os.MkdirAll(d, 0o755) //nolint:errcheck
